@@ -44,6 +44,9 @@ mod rate_default;
 mod rate_high;
 mod rate_low;
 
+#[cfg(feature = "verif-hooks")]
+pub(crate) use rate_default::verif_use_high_rate;
+
 // ======================================================================
 // Rate - PUBLIC
 
